@@ -1,4 +1,5 @@
 import LJT.Proofs.Lossless
+import LJT.Proofs.LosslessScan
 import LJT.Proofs.Bits
 /-!
 # C02 - Lossless mode reproduces every sample exactly
@@ -149,6 +150,23 @@ theorem lossless_roundtrip_partial (p : Params) (img : List (List (List Nat))) (
       refine All2.cons ?_ (ih (fun r hr => hw r (List.mem_cons_of_mem _ hr))
         (fun r hr => hs r (List.mem_cons_of_mem _ hr)) _ h2)
       exact component_roundtrip p rows w hP (hw rows (List.mem_cons_self ..)) (hs rows (List.mem_cons_self ..)) _ h1
+
+/-- **scan_entropy_roundtrip**: the entropy-coded data of a whole lossless scan - any number of restart intervals,
+each packed, 1-padded, byte-stuffed, joined by RST0..RST7 (exactly what `llEncode`, the model tied byte for byte to
+libjpeg-turbo by `llenc`, emits) - split at the markers and decoded interval by interval yields, for every interval
+and every MCU, differences congruent modulo 2^16 to the ones coded.  With `component_roundtrip` (which needs
+nothing but that congruence) this leaves only the regrouping of MCUs into component rows outside a single
+end-to-end statement. -/
+theorem scan_entropy_roundtrip (cds : List CDerived) (dds : List DDerived) (tblOf : List Nat) (nc : Nat)
+    (htab : TablesOK cds dds tblOf 0 nc) (segs : List (List (List Int))) (hne : segs ≠ [])
+    (hlen : ∀ seg ∈ segs, ∀ m ∈ seg, m.length = nc) (bitss : List (List Bool))
+    (henc : All2 (fun seg bits => segBits cds tblOf (seg.flatMap (mcuItems 0)) = some bits) segs bitss) :
+    ∃ segs', decodeSegments dds tblOf nc (segs.map List.length)
+        (Bits.splitRST (Bits.joinRST (bitss.map Bits.segmentBytes) 0) []) =
+          some (segs'.map (fun seg => seg.flatMap (mcuItems 0))) ∧
+      All2 (All2 (All2 Cong16)) segs' segs :=
+  LJT.LL.scan_entropy_roundtrip cds dds tblOf nc htab segs hne hlen bitss henc
+
 
 -- non-vacuity: a 3x2 16-bit component alternating 0 / 65535 with PSV 7, restart every row
 example : (diffRows 7 32768 (encFlags 1 2 (true, 1)) [] (downscale 0 [[0, 65535, 0], [65535, 0, 65535]])) =
